@@ -628,6 +628,10 @@ class Messenger(Connection):
 
         # Handle as many messages as are present
         while self.__rx_buf:
+            if self.get_app_socket() is None:
+                # closed while handling an earlier message
+                return
+
             if self._in_conn:
                 msgcls = messages.MessageHead
             else:
